@@ -42,3 +42,26 @@ Theorem C04_stored_info_reports_template_and_expansion :
     exists e, In e es /\ exp_route e = r0 /\ i_template i = t /\ i_data i = d.
 Proof. exact tinfo_some. Qed.
 Print Assumptions C04_stored_info_reports_template_and_expansion.
+
+(* ---- side by side: the grouped template vs its expansions inserted one by one ----
+   [one_by_one es d r] inserts, with the same data d, each expansion TEXT as a template of its own; [relabel t]
+   turns an info reported for template t with expansion text e into the info the one-by-one router reports
+   (template e, no expansion field; same depth, length, data).  Hypotheses: the template has optional groups
+   (at least two expansions) and no two of its expansions have the same part sequence (otherwise the second
+   one-by-one insert would be refused as a conflict). *)
+From WF Require Import Proofs.WalkMapP Proofs.FlatP Proofs.GroupsEquivP.
+Print one_by_one.
+Print relabel.
+
+Theorem C04_expansion_texts_are_group_free_templates :
+  forall t es, parse t = Ret es -> forall e, In e es -> parse (fst e) = Ret [e].
+Proof. exact parse_expansion_text. Qed.
+Print Assumptions C04_expansion_texts_are_group_free_templates.
+
+Theorem C04_grouped_template_equals_its_expansions :
+  forall b (ops : list op) t d es r1 chk p,
+    parse t = Ret es -> 2 <= length es -> NoDup (map exp_route es) ->
+    rinsert (run b ops) t d = (r1, ROk tt) ->
+    rsearch chk (one_by_one es d (run b ops)) p = resf (relabel t) (rsearch chk r1 p).
+Proof. exact groups_side_by_side. Qed.
+Print Assumptions C04_grouped_template_equals_its_expansions.
